@@ -37,7 +37,14 @@ var runeClasses = []func(r *rand.Rand) rune{
 	func(r *rand.Rand) rune { return pick(r, []rune{0x1f600, 0x10000, 0x10ffff, 0x1d11e}) },
 }
 
+// texts that look like an escape sequence but are six (or two) ordinary characters: whoever
+// "un-escapes" a serialized value by text replacement rewrites them
+var escapeLookalikes = []string{"\\u003c", "a\\u003eb", "\\u0026", "\\u003C", "\\n", "\\\\u003c", "x\\u0026amp;", "\\u2028", "\\\""}
+
 func RandString(r *rand.Rand, maxLen int) string {
+	if maxLen >= 6 && r.Intn(12) == 0 {
+		return pick(r, escapeLookalikes)
+	}
 	n := r.Intn(maxLen + 1)
 	var b strings.Builder
 	ascii := r.Intn(3) == 0
